@@ -286,22 +286,30 @@ def lean_obligations(pid, st, log, tier):
     res["discharged"] = sum(n for m, n in per.items() if m not in failed)
     # axiom audit of the property theorems
     thms = []
+    by_mod = {}
     for m in mods:
         src = open(module_file(m)).read()
         ns = re.findall(r"^namespace\s+([\w.]+)", src, re.M)
         pfx = (ns[0] + ".") if ns else ""
         for t in re.findall(r"^theorem\s+([\w.']+)", src, re.M):
             thms.append(pfx + t)
+            by_mod.setdefault(m, []).append(pfx + t)
     res["theorems"] = thms
     if rc == 0 and thms:
         os.makedirs(RUN, exist_ok=True)
-        audit = os.path.join(RUN, f"audit_{pid}.lean")
-        with open(audit, "w") as f:
-            for m in mods:
-                f.write(f"import {m}\n")
-            for t in thms:
-                f.write(f"#print axioms {t}\n")
-        rc2, out2, dt = sh(["lake", "env", "lean", audit], cwd=LEAN, timeout=1200)
+        # the tie umbrellas (EdVerif.Ssa.Tie.*) were developed independently and reuse some lemma names: each is audited on its own
+        groups = [[m for m in mods if not m.startswith("EdVerif.Ssa.Tie.")]] + [[m] for m in mods if m.startswith("EdVerif.Ssa.Tie.")]
+        rc2, out2, dt = 0, "", 0.0
+        for gi, grp in enumerate(g for g in groups if g):
+            audit = os.path.join(RUN, f"audit_{pid}.lean" if gi == 0 else f"audit_{pid}_{gi}.lean")
+            with open(audit, "w") as f:
+                for m in grp:
+                    f.write(f"import {m}\n")
+                for m in grp:
+                    for t in by_mod.get(m, []):
+                        f.write(f"#print axioms {t}\n")
+            r_, o_, d_ = sh(["lake", "env", "lean", audit], cwd=LEAN, timeout=1200)
+            rc2, out2, dt = max(rc2, r_), out2 + o_, dt + d_
         log(f"axiom audit rc={rc2} {dt:.1f}s")
         cur = None
         for blk in re.finditer(r"'([\w.']+)' (depends on axioms: \[([^\]]*)\]|does not depend on any axioms)", out2):
@@ -312,7 +320,10 @@ def lean_obligations(pid, st, log, tier):
             res["failed"].append("axiom-audit")
             res["build_log"] = out2[-3000:]
         if tier == "thorough" and rc2 == 0:
-            rc3, out3, dt = sh(["lake", "env", "leanchecker"] + mods, cwd=LEAN, timeout=3000)
+            rc3, out3, dt = 0, "", 0.0
+            for grp in (g for g in groups if g):
+                r_, o_, d_ = sh(["lake", "env", "leanchecker"] + grp, cwd=LEAN, timeout=3000)
+                rc3, out3, dt = max(rc3, r_), out3 + o_, dt + d_
             log(f"leanchecker rc={rc3} {dt:.1f}s")
             res["leanchecker"] = {"rc": rc3, "s": round(dt, 1), "tail": out3[-500:]}
             if rc3 != 0:
